@@ -126,6 +126,8 @@ class Gen:
             self.emit("storagecap %d" % storagecap)
         self.tok = 10
         self.after_parjob = False
+        self.opaque = set()          # ordinals whose component set this reference state does not know (createin, their clones)
+        self.seen_keys = set()       # (component set, shared values) of placed entities: each is an archetype that exists
         for _ in range(ndeps):
             m = rng.choice(self.letters)
             ds = [d for d in rng.sample(self.letters, rng.randint(1, 2)) if d != m]
@@ -148,11 +150,12 @@ class Gen:
     def pre(self, t):
         return "" if t == 0 else "t%d " % t
 
-    def pick_alive(self, projected=True):
+    def pick_alive(self, projected=True, opaque_ok=False):
         alive = self.ref.projected()[0] if (projected and self.ref.lock) else self.ref.alive
-        if not alive:
+        cands = sorted(o for o in alive if opaque_ok or o not in self.opaque)
+        if not cands:
             return None, None
-        o = self.r.choice(sorted(alive))
+        o = self.r.choice(cands)
         return o, alive[o]
 
     def any_handle(self):
@@ -284,7 +287,7 @@ class Gen:
                 h = self.any_handle()
                 self.emit("%sdestroynow %s" % (p, h))
                 return self._after_malformed(t, "destroynow", h)
-            o, e = self.pick_alive()
+            o, e = self.pick_alive(opaque_ok=True)
             if o is None:
                 return
             if locked:
@@ -297,7 +300,7 @@ class Gen:
                 h = self.any_handle()
                 self.emit("%sdestroy %s" % (p, h))
                 return self._after_malformed(t, "destroy", h)
-            o, e = self.pick_alive()
+            o, e = self.pick_alive(opaque_ok=True)
             if o is None:
                 return
             if locked:
@@ -315,8 +318,8 @@ class Gen:
             ref.marked.clear()
             self.emit("update")
         elif op == "cleararch":
-            if locked:
-                return
+            if locked or self.opaque:
+                return      # an opaque entity may live in the cleared archetype without this reference state knowing
             o, e = self.pick_alive(False)
             if o is None:
                 return
@@ -384,6 +387,30 @@ class Gen:
                 self.emit("%s%s %s" % (p, q, h))
         elif op == "dump":
             self.emit("dump")
+        elif op == "clear":
+            # EntityManager::clear(): everything dies, ids are re-issued from (0,0) afterwards. Only when nothing is pending.
+            if locked or ref.marked:
+                return
+            ref.alive.clear()
+            self.cleared = True
+            self.emit("clear")
+        elif op == "createin":
+            # create(Archetype&): reuse an archetype the history has made before (also one emptied by clear()). Which component
+            # set index K has is only known to the model, so the new entity is OPAQUE to this reference state: it is only ever
+            # used with checked entry points. K stays below the number of archetypes that certainly exist.
+            if not self.seen_keys:
+                return
+            o = ref.n
+            ref.n += 1
+            k = r.randrange(len(self.seen_keys))
+            if locked:
+                self.cmd(t, ("create", o, set(), {}))
+                ref.pending_new.add(o)
+                self.opaque.add(o)
+            else:
+                ref.alive[o] = {"c": set(), "s": {}}
+                self.opaque.add(o)
+            self.emit("%screatein %d" % (p, k))
         elif op == "latedep":
             if locked:
                 return
@@ -469,8 +496,15 @@ class Gen:
             ref.buf = {}
             ref.pending_new = set()
 
+    def note_keys(self):
+        if self.ref.lock == 0:
+            for o, e in self.ref.alive.items():
+                if o not in self.opaque:
+                    self.seen_keys.add((frozenset(e["c"]), tuple(sorted(e["s"].items()))))
+
     def run(self, n):
         for _ in range(n):
+            self.note_keys()
             if self.ref.lock == 0 and self.r.random() < self.lock_bias:
                 self.ref.lock += 1
                 self.emit("lock")
@@ -664,6 +698,8 @@ def handles_distinct(lines):
     """C01 on the implementation's own output: creation calls never return one (id, version, world) triple twice"""
     seen = {}
     for l in lines:
+        if l.startswith("cleared"):
+            seen = {}          # EntityManager::clear() resets the id table: handles are re-issued from (0, 0) by design
         if l.startswith("h ") and " id=" in l:
             w = l.split()
             key = tuple(w[2:5])
